@@ -6,7 +6,7 @@
                adjoint = (conjugate) transpose, single and multi-domain, real and complex."""
 import numpy as np
 
-PRE = ["none", "none", "diag", "scal", "dense", "lineinsum", "lineinsum_t", "mle_static", "mle_static3", "mle2", "outer", "sandwich"]
+PRE = ["none", "none", "diag", "scal", "dense", "lineinsum", "lineinsum_t", "mle_static", "mle_static3", "mle2", "outer", "sandwich", "vdotproj", "outerop", "jaxlin"]
 HOLO = {"id": lambda z: z, "exp": np.exp, "sin": np.sin, "tanh": np.tanh, "sq": lambda z: z * z}
 
 
@@ -142,6 +142,20 @@ def _creal(case, ift):
     elif pre == "sandwich":
         A0 = ift.MatrixProductOperator(d, Mc).adjoint(ift.makeOp(ift.makeField(d, Mc[0]))(A0))
         lref = lambda z: Mc.conj().T @ (Mc[0] * (c * z))
+    elif pre == "vdotproj":
+        v = ift.VdotOperator(ift.makeField(d, Mc[0]))
+        A0 = v.adjoint(v(A0))
+        lref = lambda z: Mc[0] * np.vdot(Mc[0], c * z)
+    elif pre == "outerop":
+        # OuterProduct with a complex field, contracted with a complex weight
+        A0 = ift.ContractionOperator(dd, 0)(ift.makeOp(ift.makeField(dd, Mc))(ift.OuterProduct(d, ift.makeField(d, Mc[0]))(A0)))
+        lref = lambda z: np.sum(Mc * np.multiply.outer(Mc[0], c * z), axis=0)
+    elif pre == "jaxlin":
+        import jax
+        jax.config.update("jax_enable_x64", True)
+        import jax.numpy as jnp
+        A0 = ift.JaxLinearOperator(d, d, lambda w: jnp.asarray(Mc) @ w, domain_dtype=np.complex128)(A0)
+        lref = lambda z: Mc @ (c * z)
     if A0 is None:     # two varying operands: operator mode only
         return None
     A = apply_holo(A0, case["f"])
